@@ -105,6 +105,11 @@ func (p *MetadataPersister) UpsertHeader(ctx context.Context, dbhdr *config.Head
 	hdr := *idbhdr
 	if !initializing {
 		hdr.Name = p.getSanitizedPath(ctx, idbhdr.Name)
+
+		// Link paths are looked up in the sanitized spelling, so store them that way too
+		if hdr.Linkname != "" {
+			hdr.Linkname = p.getSanitizedPath(ctx, idbhdr.Linkname)
+		}
 	}
 
 	if _, err := models.Headers(
